@@ -142,6 +142,13 @@ func c11Gen(rt *rapid.T) c11Prog {
 			p.Ops = append(p.Ops, wOp{K: "tick", N: gPick(rt, []int{100, 4000}, "ms")})
 		case x < 52:
 			p.Ops = append(p.Ops, wOp{K: "acc", S: 1, U: gInt(rt, 0, 2, "u"), A: gPick(rt, []string{"susp", "ok", ""}, "st")})
+		case x < 54:
+			// the store fails while the credentials of the account are looked up during a login
+			p.Ops = append(p.Ops, wOp{K: "fault", N: 1, A: "CredGetAll"},
+				wOp{K: "login", S: 1, A: "basic", B: gPick(rt, []string{"alice1:" + c11Password, "alice2:" + c11Password}, "basic2")})
+			if gPct(rt, 70) {
+				p.Ops = append(p.Ops, wOp{K: "get", S: 1, T: "me", A: "desc"})
+			}
 		case x < 56:
 			// create a new account, mostly asking to be logged in as that account right away
 			p.Ops = append(p.Ops, wOp{K: "acc", S: 1, B: "new", A: fmt.Sprintf("newbie%d:%s", i, c11Password), F: gPct(rt, 75)})
@@ -301,6 +308,14 @@ func (o *c11Obs) After(w *wWorld, st *wStep) *kit.Viol {
 		if !o.ver {
 			if code < 400 || !ss.s.uid.IsZero() {
 				return kit.V("login-before-handshake", "{login} before {hi} was answered %d (session uid %v)", code, ss.s.uid)
+			}
+			o.refused++
+			return nil
+		}
+		if st.Fired && o.uid < 0 && o.ver {
+			// the store failed inside this login (the fault plan names the credential look-up): it must not succeed
+			if code < 400 || !ss.s.uid.IsZero() {
+				return kit.V("login-succeeded-although-store-failed", "{login %s %s} was answered %d and left the session authenticated as %s although the look-up of the account's credentials failed", st.Op.A, st.Op.B, code, ss.s.uid.UserId())
 			}
 			o.refused++
 			return nil
